@@ -1,7 +1,7 @@
 #!/bin/sh
 # Runs every kept seeded change against the quick check of its property; records the outcome in meta.json.
 cd /verif || exit 2
-for d in seeded/*/; do
+for d in seeded/${1:-}*/; do
   name=$(basename "$d"); pid=$(echo "$name" | cut -d- -f1)
   [ -f "$d/patch.diff" ] || continue
   out=$(harness/seeded_run.sh "/verif/$d/patch.diff" "$pid" quick 2>/dev/null | tail -2 | tr '\n' ' ')
